@@ -63,7 +63,9 @@ class Contract:
                 except (AssertionError, AttributeError, TypeError, IndexError):
                     post = []             # ill-shaped arguments: nothing is known about the result (the pre-obligation has already failed)
                 q1.pc = q1.pc + [x for x in post if not z3.is_true(x)]
-                if ex.feasible(q1.pc): outs.append((q1, r1))
+                if ex.feasible(q1.pc):
+                    q1.trace = q1.trace + (('result', self.short, ns, r1),)      # ghost: read by the relational driver (vf/relational.py)
+                    outs.append((q1, r1))
         for t in self.raises:
             q = p.fork()
             extra = self.exc_posts.get(t)
